@@ -121,7 +121,19 @@ def assert_key(a, crate):
     return fn, a.kind
 
 
-def eval_root(crate, key, config_std=False):
+BOUNDED_LENS = list(range(0, 18))
+
+
+def has_slice_arg(crate, key, ev_tys):
+    body = crate.bodies[key]
+    for i in range(1, body["argc"] + 1):
+        t = ev_tys[body["locals"][i]]
+        if t["k"] in ("ref", "ptr") and ev_tys[t["to"]]["k"] == "slice":
+            return True
+    return False
+
+
+def eval_root(crate, key, config_std=False, slice_len=None):
     ev = crate.evaluator(max_steps=6000000)
     ev.summarise_loops = True
     ev.unroll_limit = 1100 if crate.name != "rand_jitter" else 100
@@ -132,6 +144,13 @@ def eval_root(crate, key, config_std=False):
     st = State()
     body = crate.bodies[key]
     args, objs = symbolic_args(ev, st, body)
+    if slice_len is not None:
+        # fallback for own loops over a runtime-sized slice that the evaluator cannot summarise: one constant length at a time
+        for i, a in enumerate(args):
+            if isinstance(a, Ref) and a.win is not None:
+                w = st.objs[a.obj].w
+                oid = st.alloc(ArrV(slice_len, w, None, None, {j: T.sym("%s[%d]" % (body["names"].get(str(i + 1)) or "a", j), w) for j in range(slice_len)}), "slice")
+                args[i] = Ref(oid, (), (0, slice_len), a.mut)
     hc = False
     if crate.name == "rand_hc":
         hc = hc_invariant_self(ev, st, args, body)
@@ -161,49 +180,65 @@ def run(chk, tier, only_crate=None):
                     continue
                 if config == "jitter-std" and not ("new" in key.split("::")[-1] or "get_nstime" in key):
                     continue  # the std configuration only adds new() and the platform timer
+                runs = []
                 try:
-                    ev, st, args, ret, body, hc = eval_root(crate, key)
+                    runs.append(eval_root(crate, key))
                 except Diverged:
                     chk.ob("R1", "%s|root always panics" % key, False, "every path of this operation ends in a panic", where=crate.bodies[key]["span"][0])
                     continue
                 except (Unsupported, SymbolicLoop, RecursionError) as e:
-                    chk.ob("R1", "%s|analysable" % key, False, "abstract evaluation not possible: %s" % str(e)[:300], where=crate.bodies[key]["span"][0])
-                    continue
+                    first = e
+                    if "symbolic" in str(e) and has_slice_arg(crate, key, crate.evaluator().tys):
+                        try:
+                            for n in BOUNDED_LENS:
+                                runs.append(eval_root(crate, key, slice_len=n))
+                        except Diverged:
+                            chk.ob("R1", "%s|root always panics" % key, False, "every path ends in a panic for a slice of length %d" % n, where=crate.bodies[key]["span"][0])
+                            continue
+                        except (Unsupported, SymbolicLoop, RecursionError) as e2:
+                            runs = []
+                    if not runs:
+                        chk.ob("R1", "%s|analysable" % key, False, "abstract evaluation not possible: %s" % str(first)[:300], where=crate.bodies[key]["span"][0])
+                        continue
+                    chk.ob("R1", "%s|own loop over a runtime-sized slice: decided for slice lengths %d..=%d only" % (key, BOUNDED_LENS[0], BOUNDED_LENS[-1]),
+                           True, "", where=crate.bodies[key]["span"][0], nontrivial=False)
+                    chk.extra.setdefault("bounded_roots", []).append(key)
                 nroots += 1
                 chk.body(key)
-                if hc:
-                    bad = check_hc_invariant(chk, ev, st, args, body, key)
-                    chk.ob("R1.inv", "%s|Hc128Core.counter1024 stays 0 mod 16" % key, not bad, "violated at %s" % bad, where=body["span"][0])
-                for a in ev.asserts:
-                    sp = a.span[0]
-                    if "rand_core-" in sp or ".cargo/registry" in sp:
-                        dep_asserts += 1
-                        continue
-                    fnn = crate.bodies[a.body]["def"] if a.body in crate.bodies else a.body
-                    if fnn in EXCLUDED_PANIC_FNS:
-                        continue
-                    k = (fnn, a.kind, sp, a.span[1])
-                    prev = seen_asserts.get(k)
-                    if prev is None or (prev[0] and not a.discharged):
-                        seen_asserts[k] = (a.discharged, a, key)
-                for p in ev.panics:
-                    fnn = crate.bodies[p["body"]]["def"] if p["body"] in crate.bodies else p["body"]
-                    sp = p["span"][0]
-                    if "rand_core-" in sp or ".cargo/registry" in sp:
-                        continue
-                    panic_sites.setdefault((fnn, sp, p["span"][1]), []).append((key, p))
-                # R3: unclassified callees
-                for c in ev.calls:
-                    caller, name, span, why, call = c[0], c[1], c[2], c[3], c[4]
-                    if why in ("unresolved", "synthetic", "recursion", "fmt", "no-inline"):
-                        continue
-                    if name.startswith("rand_core::impls::fill_bytes_via_next") or "rand_core::block::BlockRng" in name:
-                        continue
-                    if config == "jitter-std" and re.match(r"^((rand_jitter::)?std::time::|core::time::|log::|<.*log::|core::cmp::PartialOrd::le)", name):
-                        continue
-                    if why in ("primitive", "no-mir", "intrinsic", "shim", "virtual") :
-                        chk.ob("R3", "%s|callee %s" % (crate.bodies[caller]["def"] if caller in crate.bodies else caller, name), False,
-                               "call to a function that is neither inlined nor in the primitive table (%s)" % why, where=span[0])
+                for ev, st, args, ret, body, hc in runs:
+                    if hc:
+                        bad = check_hc_invariant(chk, ev, st, args, body, key)
+                        chk.ob("R1.inv", "%s|Hc128Core.counter1024 stays 0 mod 16" % key, not bad, "violated at %s" % bad, where=body["span"][0])
+                    for a in ev.asserts:
+                        sp = a.span[0]
+                        if "rand_core-" in sp or ".cargo/registry" in sp:
+                            dep_asserts += 1
+                            continue
+                        fnn = crate.bodies[a.body]["def"] if a.body in crate.bodies else a.body
+                        if fnn in EXCLUDED_PANIC_FNS:
+                            continue
+                        k = (fnn, a.kind, sp, a.span[1])
+                        prev = seen_asserts.get(k)
+                        if prev is None or (prev[0] and not a.discharged):
+                            seen_asserts[k] = (a.discharged, a, key)
+                    for p in ev.panics:
+                        fnn = crate.bodies[p["body"]]["def"] if p["body"] in crate.bodies else p["body"]
+                        sp = p["span"][0]
+                        if "rand_core-" in sp or ".cargo/registry" in sp:
+                            continue
+                        panic_sites.setdefault((fnn, sp, p["span"][1]), []).append((key, p))
+                    # R3: unclassified callees
+                    for c in ev.calls:
+                        caller, name, span, why, call = c[0], c[1], c[2], c[3], c[4]
+                        if why in ("unresolved", "synthetic", "recursion", "fmt", "no-inline"):
+                            continue
+                        if name.startswith("rand_core::impls::fill_bytes_via_next") or "rand_core::block::BlockRng" in name:
+                            continue
+                        if config == "jitter-std" and re.match(r"^((rand_jitter::)?std::time::|core::time::|log::|<.*log::|core::cmp::PartialOrd::le)", name):
+                            continue
+                        if why in ("primitive", "no-mir", "intrinsic", "shim", "virtual") :
+                            chk.ob("R3", "%s|callee %s" % (crate.bodies[caller]["def"] if caller in crate.bodies else caller, name), False,
+                                   "call to a function that is neither inlined nor in the primitive table (%s)" % why, where=span[0])
             # ---- judge asserts
             per_fn_counter = {}
             nass = 0
